@@ -44,7 +44,7 @@ fn run(a: &vhcore::Args) -> i32 {
                 _ => true,
             };
             let key = match (case.known_class, still) {
-                (Some(k), _) => format!("C02|{k}|{kind}"),
+                (Some(k), _) => format!("C02|{k}"),
                 (None, true) => format!("C02|{}|{kind}", shape_of(case)),
                 (None, false) => format!("C02|{}|{kind}|only-in-batch", shape_of(case)),
             };
